@@ -343,7 +343,7 @@ func VerifC03Scan() {
 			vAssert(!tracked, "an entry of an unsupported type is never reported as tracked content")
 		case !it.reached:
 			vCover("below-unwalked-ignored-directory")
-			vAssert(got == nil, "nothing below an ignored directory that is not walked is reported")
+			vAssert(!tracked, "nothing below an ignored directory that is not walked is reported as tracked content")
 		case it.ignored && it.node.kind == vfKDir:
 			if it.walked {
 				vCover("ignored-directory-walked")
